@@ -791,6 +791,10 @@ impl Property for C13 {
                     && matches!(pool.nodes[pool.idx(&op[*k])], XmlNode::Text(_) | XmlNode::CData(_) | XmlNode::EntityReference(_) | XmlNode::ExpandedText(_))
             });
             let sp = if merged && textish_operand && !matches!(sp, Spec::Unspecified(_)) { Spec::Unspecified("merged-view-text-operand") } else { sp };
+            // a merged text node given as new child is moved piece by piece; a refusal of a later piece leaves the earlier ones moved
+            // (open finding, keyed by this shape of the call)
+            let merged_text_argument = merged
+                && ["c", "n"].iter().any(|k| op.get(*k).map(|v| v.is_number() || v.is_array()).unwrap_or(false) && matches!(pool.nodes[pool.idx(&op[*k])], XmlNode::ExpandedText(_)));
             let npool = pool.nodes.len();
             // operand identities must be read before the call: the pool grows and index mapping shifts
             let mut opk: BTreeMap<&'static str, Key> = BTreeMap::new();
@@ -825,7 +829,7 @@ impl Property for C13 {
                     // atomicity of failures still holds for every call
                     if let Outcome::Err(e) = &out {
                         if let Some(d) = first_diff(&before, &after) {
-                            fail!(if receiver_held_invalid_data { format!("c13.not-atomic.{}.receiver-already-held-invalid-data", kind) } else { format!("c13.not-atomic.{}.{}", kind, err_class(e)) }, format!("step {} {}: the call failed with {} but changed the state: {}", step, op, e, d));
+                            fail!(if receiver_held_invalid_data { format!("c13.not-atomic.{}.receiver-already-held-invalid-data", kind) } else { if merged_text_argument { format!("c13.not-atomic.{}.merged-text-argument-moved-piece-by-piece", kind) } else { format!("c13.not-atomic.{}.{}", kind, err_class(e)) } }, format!("step {} {}: the call failed with {} but changed the state: {}", step, op, e, d));
                         }
                     }
                 }
@@ -857,7 +861,7 @@ impl Property for C13 {
                                 );
                             }
                             if let Some(d) = first_diff(&before, &after) {
-                                fail!(if receiver_held_invalid_data { format!("c13.not-atomic.{}.receiver-already-held-invalid-data", kind) } else { format!("c13.not-atomic.{}.{}", kind, cls) }, format!("step {} {}: the call failed with {} but changed the state: {}", step, op, e, d));
+                                fail!(if receiver_held_invalid_data { format!("c13.not-atomic.{}.receiver-already-held-invalid-data", kind) } else { if merged_text_argument { format!("c13.not-atomic.{}.merged-text-argument-moved-piece-by-piece", kind) } else { format!("c13.not-atomic.{}.{}", kind, cls) } }, format!("step {} {}: the call failed with {} but changed the state: {}", step, op, e, d));
                             }
                         }
                         _ => {}
@@ -890,7 +894,7 @@ impl Property for C13 {
                             }
                             obs.label("refused-storable-data");
                             if let Some(d) = first_diff(&before, &after) {
-                                fail!(if receiver_held_invalid_data { format!("c13.not-atomic.{}.receiver-already-held-invalid-data", kind) } else { format!("c13.not-atomic.{}.{}", kind, cls) }, format!("step {} {}: the call failed with {} but changed the state: {}", step, op, e, d));
+                                fail!(if receiver_held_invalid_data { format!("c13.not-atomic.{}.receiver-already-held-invalid-data", kind) } else { if merged_text_argument { format!("c13.not-atomic.{}.merged-text-argument-moved-piece-by-piece", kind) } else { format!("c13.not-atomic.{}.{}", kind, cls) } }, format!("step {} {}: the call failed with {} but changed the state: {}", step, op, e, d));
                             }
                         }
                         Outcome::Ok(_) => {
